@@ -713,7 +713,7 @@ func seedStream(seed int64, k int) []uint64 {
 }
 
 func (prop) Run(line string) core.Outcome {
-	if strings.HasPrefix(line, "prx ") || strings.HasPrefix(line, "key ") || strings.HasPrefix(line, "ck ") {
+	if strings.HasPrefix(line, "prx ") || strings.HasPrefix(line, "key ") || strings.HasPrefix(line, "ck ") || strings.HasPrefix(line, "cf ") {
 		var f []string
 		for _, p := range strings.Split(line, " ") {
 			if p != "" {
@@ -725,6 +725,8 @@ func (prop) Run(line string) core.Outcome {
 			return runProxy(f)
 		case "key":
 			return runKey(f)
+		case "cf":
+			return runCf(f)
 		}
 		return runCk(f)
 	}
